@@ -79,6 +79,55 @@ Theorem C19_oracle_roundtrip_model : forall (c : config) (doc doc' : json),
   save_doc c doc = Some doc' -> roundtrip_b c (load_doc doc') = true.
 Proof. exact oracle_roundtrip_model. Qed.
 
+(* ---- the standalone configuration file (generate -c <file>, typegen.json) ---- *)
+(* save_to_file then from_file (serde's derived readers, before validation) gives back
+   exactly the settings written, for every settings value, all twelve fields. *)
+Theorem C19_roundtrip_file : forall c : config, from_flat (flat_json c) = Some c.
+Proof. exact flat_roundtrip. Qed.
+
+(* flag over standalone file over default, for every well-formed file and flag set *)
+Theorem C19_precedence_file : forall (fl : flags) (doc : json) (c0 : config),
+  from_flat doc = Some c0 -> eff_of fl (apply_flags fl c0) = spec_eff_c fl doc.
+Proof. exact precedence_c. Qed.
+
+(* generate -c: invalid effective settings are refused with the file system untouched;
+   otherwise the run uses exactly flag over file over default - outside C19-8 (the file
+   is validated on its own before the flags are applied). *)
+Theorem C19_generate_c : forall (f : fs) (fl : flags) (p : string) (d : json) (c0 : config),
+  fs_get f p = Some (NDoc (Some d)) -> from_flat d = Some c0 -> kf_cfile_prevalidated f fl p = false ->
+  if spec_invalid f (spec_eff_c fl d)
+  then run_generate_c f fl p = RFail f \/ exists err, run_generate_c f fl p = RReject err f
+  else (run_generate_c f fl p = RNoCommands (spec_eff_c fl d) f /\ fs_get f (e_project (spec_eff_c fl d)) <> Some NProj)
+       \/ exists f', run_generate_c f fl p = RRun (spec_eff_c fl d) f'
+                     /\ fs_get f (e_project (spec_eff_c fl d)) = Some NProj
+                     /\ forall q, norm q <> norm (e_output (spec_eff_c fl d)) -> fs_get f' q = fs_get f q.
+Proof. exact generate_c_spec. Qed.
+
+Theorem C19_generate_c_prevalidated_refuted : exists f fl p d,
+  fs_get f p = Some (NDoc (Some d)) /\ kf_cfile_prevalidated f fl p = true /\
+  spec_invalid f (spec_eff_c fl d) = false /\ run_generate_c f fl p = RFail f.
+Proof. exact generate_c_prevalidated_refuted. Qed.
+
+(* a missing, unreadable or malformed standalone file: error, nothing written *)
+Theorem C19_generate_c_unreadable : forall (f : fs) (fl : flags) (p : string),
+  (forall d c0, fs_get f p = Some (NDoc (Some d)) -> from_flat d = Some c0 -> False) ->
+  run_generate_c f fl p = RFail f.
+Proof. exact generate_c_unreadable. Qed.
+
+(* the build-script loader uses the file's settings over the defaults (section of
+   tauri.conf.json, else typegen.json) - outside C19-9 (an unusable configuration is not
+   refused: warning and fall-back to the next source). *)
+Theorem C19_precedence_build : forall f : fs, kf_build_fallback f = false ->
+  eff_of no_flags (build_config f) = spec_eff_build f.
+Proof. exact build_precedence. Qed.
+
+Theorem C19_build_fallback_refuted : exists f e f',
+  kf_build_fallback f = true /\ run_build f = RRun e f' /\ e_lib e = "none" /\ e_output e = "./src/generated".
+Proof. exact build_fallback_refuted. Qed.
+
+Theorem C19_oracle_roundtrip_file_model : forall c : config, flat_roundtrip_b c (from_flat (flat_json c)) = true.
+Proof. exact oracle_flat_roundtrip_model. Qed.
+
 (* ---- non-vacuity: concrete non-trivial inputs meet the premises *)
 Definition ex_doc : json :=
   JObj [("productName", JStr "My App"); ("big", JNum "18446744073709551615");
@@ -145,10 +194,6 @@ Example C19_ex_precedence :
         e_log_verbose := true; e_visualize := false; e_force := true |}.
 Proof. vm_compute. repeat split; reflexivity. Qed.
 
-Definition no_flags : flags :=
-  {| f_project := None; f_output := None; f_validation := None; f_verbose := false;
-     f_visualize := false; f_force := false |}.
-
 Example C19_ex_generate_reject :
   let fl := {| f_project := None; f_output := None; f_validation := Some "yup"; f_verbose := false;
                f_visualize := false; f_force := false |} in
@@ -204,6 +249,26 @@ Example C19_ex_init_document :
   /\ run_init ex_fs il = RRun e f' /\ e_project e = "./projA" /\ e_output e = "./gen" /\ e_lib e = "zod".
 Proof. vm_compute. eexists. eexists. eexists. eexists. repeat split; try reflexivity. discriminate. Qed.
 
+Definition ex_flat : json :=
+  JObj [("project_path", JStr "./projA"); ("output_path", JStr "./outF"); ("validation_library", JStr "zod");
+        ("force", JBool true); ("verbose", JNull); ("unknown", JNum "1")].
+Example C19_ex_file :
+  let f := (ex_fs ++ [("typegen.json", NDoc (Some ex_flat))])%list in
+  (exists c0, from_flat ex_flat = Some c0 /\ force c0 = Some true /\ verbose c0 = None)
+  /\ kf_cfile_prevalidated f ex_flags "typegen.json" = false
+  /\ spec_eff_c ex_flags ex_flat =
+     {| e_project := "./projB"; e_output := "./outF"; e_lib := "zod"; e_verbose := true;
+        e_log_verbose := true; e_visualize := false; e_force := true |}
+  /\ exists f', run_generate_c f ex_flags "typegen.json" = RRun (spec_eff_c ex_flags ex_flat) f'.
+Proof. vm_compute. split; [eexists; repeat split; reflexivity|]. repeat split; try reflexivity. eexists. reflexivity. Qed.
+
+Example C19_ex_build :
+  let f := [("src-tauri", NProj); ("projA", NProj); ("tauri.conf.json", NDoc (Some (JObj [("a", JNum "1")])));
+            ("typegen.json", NDoc (Some ex_flat))] in
+  kf_build_fallback f = false /\ e_force (spec_eff_build f) = true /\ e_output (spec_eff_build f) = "./outF"
+  /\ exists f', run_build f = RRun (spec_eff_build f) f'.
+Proof. vm_compute. repeat split; try reflexivity. eexists. reflexivity. Qed.
+
 Print Assumptions C19_preserve.
 Print Assumptions C19_save_refused.
 Print Assumptions C19_roundtrip.
@@ -213,3 +278,11 @@ Print Assumptions C19_init_reject_first.
 Print Assumptions C19_init_unsaveable.
 Print Assumptions C19_init_document.
 Print Assumptions C19_oracle_roundtrip_model.
+Print Assumptions C19_roundtrip_file.
+Print Assumptions C19_precedence_file.
+Print Assumptions C19_generate_c.
+Print Assumptions C19_generate_c_prevalidated_refuted.
+Print Assumptions C19_generate_c_unreadable.
+Print Assumptions C19_precedence_build.
+Print Assumptions C19_build_fallback_refuted.
+Print Assumptions C19_oracle_roundtrip_file_model.
